@@ -290,41 +290,54 @@ Example ex_stale_repaired :
   end = true.
 Proof. vm_compute. reflexivity. Qed.
 
-(* ---- source equivalence (tools/go2coq; gen/SrcFns.v is regenerated from /repo on every run): the
-        Gallina definition translated from copy/copy.go's containsWildcards (Linux) equals, on every
-        component without a backslash (the ones the copy model covers: has_unsupported), the model's
-        has_wild by which splitWildcards finds the first wildcard component; and its loop never runs
-        out of the fuel the translator derived ---- *)
+(* ---- source equivalences (tools/go2coq; gen/SrcFns.v is regenerated from /repo on every run), for ALL inputs:
+        the Gallina definition translated from copy/copy.go's containsWildcards (Linux) equals the model's
+        escape-aware has_wild_e (the byte after a backslash is skipped) by which splitWildcards finds the first
+        pattern component, and its loop never runs out of the fuel the translator derived ---- *)
 From FSGen Require SrcFns.
 From FS Require Proofs.Src.CopyContainsWildcardsEq.
 Theorem copy_containsWildcards_src_eq :
+  forall c, SrcFns.copy_containsWildcards c = Some (has_wild_e c).
+Proof. exact CopyContainsWildcardsEq.copy_containsWildcards_src_eq. Qed.
+(* the earlier statement: the escape-free has_wild on backslash-free components (through has_wild_e_backslash_free) *)
+Theorem copy_containsWildcards_backslash_free :
   forall c, existsb (N.eqb ch_bsl) c = false ->
     SrcFns.copy_containsWildcards c = Some (has_wild c).
-Proof. exact CopyContainsWildcardsEq.copy_containsWildcards_src_eq. Qed.
+Proof. exact CopyContainsWildcardsEq.copy_containsWildcards_backslash_free. Qed.
 Print Assumptions copy_containsWildcards_src_eq.
+Print Assumptions copy_containsWildcards_backslash_free.
 
 (* splitWildcards (strings.Split / filepath.Join with the meanings of Src/Prims.v, proved equal to Path.comps /
    Path.clean; a range variable that shadows the parameter; containsWildcards through its own translation)
-   computes what the model's resolve_wild computes: the components of Clean(p) (one empty component for an
-   empty p; an empty component stands for "/"), split before the first wildcard component by split_wild,
-   each half joined and cleaned ("" for an empty half) — for every p whose components hold no backslash. *)
+   computes, for ALL p, what the model's resolve_wild computes: the components of Clean(p) (one empty component
+   for an empty p; an empty component stands for "/"), split before the first pattern component by the
+   escape-aware split_wild_e, each half joined and cleaned ("" for an empty half). *)
 From FS Require Proofs.Src.SplitWildcardsEq.
 Theorem splitWildcards_src_eq : forall p,
   let cs0 := match p with [] => [[]] | _ => comps (clean p) end in
   let cs := map (fun c => match c with [] => [sep] | _ => c end) cs0 in
   let jn := fun l : list bytes => match l with [] => [] | _ => clean (joinc l) end in
+  SrcFns.splitWildcards p = Some (jn (fst (split_wild_e cs)), jn (snd (split_wild_e cs))).
+Proof. exact SplitWildcardsEq.splitWildcards_src_eq. Qed.
+(* the earlier statement: the escape-free split_wild when no component holds a backslash *)
+Theorem splitWildcards_backslash_free : forall p,
+  let cs0 := match p with [] => [[]] | _ => comps (clean p) end in
+  let cs := map (fun c => match c with [] => [sep] | _ => c end) cs0 in
+  let jn := fun l : list bytes => match l with [] => [] | _ => clean (joinc l) end in
   forallb (fun c => negb (existsb (N.eqb ch_bsl) c)) cs0 = true ->
   SrcFns.splitWildcards p = Some (jn (fst (split_wild cs)), jn (snd (split_wild cs))).
-Proof. exact SplitWildcardsEq.splitWildcards_src_eq. Qed.
+Proof. exact SplitWildcardsEq.splitWildcards_backslash_free. Qed.
 Print Assumptions splitWildcards_src_eq.
+Print Assumptions splitWildcards_backslash_free.
 
 (* ---- backslash escapes in wildcard sources.  The model's resolve_wild (and with it overlay_all,
    copy_top and every theorem above) honours them: a component is a pattern iff it holds an
    UNESCAPED * ? [ ([has_wild_e]: the byte after a backslash is skipped, as containsWildcards does
    on Linux); the components before the first pattern component are a literal path, backslashes
    included ([split_wild_e]); matching is filepath.Match restricted to literals, *, ? and \x
-   ([glob_e]; character classes and a trailing lone backslash: EScope).  On components without a
-   backslash they are the plain has_wild / split_wild (/ glob) of the two source-equivalence theorems above. *)
+   ([glob_e]; character classes and a trailing lone backslash: EScope).  The two source-equivalence theorems above
+   tie them to the translated Go functions for all inputs; on components without a backslash they are the plain
+   has_wild / split_wild (/ glob). *)
 From FS Require Proofs.CopyWildP.
 Theorem has_wild_e_backslash_free :
   forall c, existsb (N.eqb ch_bsl) c = false -> has_wild_e c = has_wild c.
